@@ -35,6 +35,11 @@ def small_model(rng):
         m = models.nested([0.5, 0.8, 1.0][:rng.randint(1, 3)], [1.0, 0.0125, 1.0], level, air_sigma=rng.choice([0.0, 0.0, 0.2]))
         m["info"]["topology"] = "nested-air"
         return m
+    if r < 0.26:
+        # both hemispheres non-conductive: the cut is isolated, its rim vertices are shared with the (live) caps
+        m = models.split_hemispheres(1.0, [1.2] * rng.randint(0, 1), (0.0, 0.0) if rng.random() < 0.7 else (0.0, 1.0), [0.33], rng.choice([1, 1, 2]))
+        m["info"]["topology"] = "split-zero"
+        return m
     if r < 0.3:
         # interface whose bounding-box centre is outside the enclosed volume (rejected as "not closed" before the fix)
         m = gd.bowl_model(rng.choice([1, 1, 2]), rng.choice([1.0, 0.33]), inside_sphere=rng.random() < 0.5)
@@ -245,11 +250,30 @@ def main(replay=None):
                 cond_lines=rc.get("cond_lines"), cond_header=rc.get("cond_header", True), probes=[tuple(p) for p in rc.get("probes", [])])
     else:
         nbase = 26 if quick else 90
-        # the witness of nested_classification_correct_refuted, replayed on every run
-        wm = models.inclusions(1.0, [((0.45, 0, 0), 0.3, 1.0), ((-0.45, 0.1, 0), 0.3, 0.33)], 1.0, level=0); wm["info"]["topology"] = "inclusions"
-        add(wm, "1.1", False, "base:inclusions", nprobes=10)
-        # the witness of the repaired defect (bounding-box centre outside the volume), on every run
-        add(gd.bowl_model(1, 1.0, False), "1.1", False, "base:bowl", nprobes=20)
+        # corpus first: refutation witness, repaired-defect witness, boundary topologies
+        def corpus_model(name, args):
+            import random as _r
+            cr = _r.Random(4242)
+            if name == "siblings":
+                wm = models.inclusions(1.0, [((0.45, 0, 0), 0.3, 1.0), ((-0.45, 0.1, 0), 0.3, 0.33)], 1.0, level=0); wm["info"]["topology"] = "inclusions"; return wm
+            if name == "bowl": return gd.bowl_model(1, 1.0, args[:1] == ["enclosed"])
+            if name == "isolated-shell":
+                wm = models.nested([0.5, 0.7, 0.85, 1.0], [1.0, 0.0, 0.0, 0.33], 0); wm["info"]["topology"] = "nested-zero"; return wm
+            if name == "split":
+                wm = models.split_hemispheres(1.0, [1.15], (1.0, 0.33), [0.0125], 1); wm["info"]["topology"] = "split"; return wm
+            if name == "split-zero":
+                wm = models.split_hemispheres(1.0, [1.2], (0.0, 0.0), [0.33], 1); wm["info"]["topology"] = "split-zero"; return wm
+            if name == "flips":
+                wm = models.nested([0.6, 1.0], [1.0, 0.33], 0); wm["info"]["topology"] = "nested"
+                return gd.redescribe(gd.redescribe(wm, cr, "mesh_flip"), cr, "local_flips")
+            return None
+        cp = os.path.join(core.VERIF, "corpus", "C11.txt")
+        if os.path.exists(cp):
+            for line in open(cp):
+                t = line.split()
+                if not t or t[0].startswith("#"): continue
+                wm = corpus_model(t[0], t[1:])
+                if wm is not None: add(wm, "1.1", False, "base:" + wm["info"].get("topology", t[0]), nprobes=12)
         for b in range(nbase):
             m = small_model(rng)
             top = m["info"].get("topology", "?")
